@@ -6,6 +6,7 @@
 EXTENDS MambaStatic, Json
 CONSTANTS Depth, Part
 Raw(s) == [k |-> "raw", v |-> s]
+RawS(s) == [k |-> "raw", v |-> s]       \* a statement given as text (the user's import statements)
 \* a construct: name, declarations, statements
 Constructs == {
    <<"sqrt",      <<>>, <<Def("r1", TRUE, "Float", Raw("sqrt 4.0"))>>>>,
@@ -22,6 +23,14 @@ Constructs == {
                     Class("Sq", <<>>, <<Parent("Shape", <<>>)>>, <<>>, <<Method("area", TRUE, <<>>, "Int", <<>>, <<Expr(IntL(4))>>)>>)>>, <<PrintS(MCall(New("Sq", <<>>), "area", <<>>))>>>>,
    <<"sqrt-in-fun", <<Fun("root", <<Param("x", "Float", Absent)>>, "Float", <<>>, <<Expr(Raw("sqrt x"))>>)>>, <<PrintS(StrL("r"))>>>>,
    <<"sqrt-in-method", <<Class("R", <<>>, <<>>, <<>>, <<Method("root", TRUE, <<Param("x", "Float", Absent)>>, "Float", <<>>, <<Expr(Raw("sqrt x"))>>)>>)>>, <<PrintS(StrL("r"))>>>>,
+   \* the user's own imports next to a construct that needs the same module: plain, under an alias, single names under an alias
+   <<"user-import-math+sqrt",        <<RawS("import math")>>,                         <<Def("r2", TRUE, "Float", Raw("sqrt 9.0"))>>>>,
+   <<"user-import-math-alias+sqrt",  <<RawS("import math as m")>>,                    <<Def("r3", TRUE, "Float", Raw("sqrt 9.0"))>>>>,
+   <<"user-from-math-alias+sqrt",    <<RawS("from math import sqrt as root")>>,       <<Def("r4", TRUE, "Float", Raw("sqrt 9.0"))>>>>,
+   <<"user-from-typing-alias+opt",   <<RawS("from typing import Optional as Opt")>>,  <<Def("o2", TRUE, "Int?", NoneL), Def("u2", TRUE, "{Int, Str}", IntL(1))>>>>,
+   <<"user-import-typing-alias+opt", <<RawS("import typing as t")>>,                  <<Def("o3", TRUE, "Int?", NoneL)>>>>,
+   <<"user-from-typing-same+opt",    <<RawS("from typing import Optional")>>,         <<Def("o4", TRUE, "Int?", NoneL)>>>>,
+   <<"user-from-abc-alias+abstract", <<RawS("from abc import ABC as Base")>>,         <<PrintS(StrL("a"))>>>>,
    <<"handled-opt", CtxDecls(<<"harm">>), <<Handle(Def("h1", TRUE, "Int?", Call("ctx_raises", <<>>)), <<HArm("CtxErr", "err", <<Expr(NoneL)>>)>>)>>>> }
 
 Single == { [name |-> c[1], decls |-> c[2], setup |-> <<>>, stmts |-> c[3], writes |-> FALSE] : c \in Constructs }
